@@ -4,7 +4,11 @@ import common, extract
 
 LEAN_MODULE = "ESRVerif.Props.C09"
 LEVEL = "proof"
-LEVEL_TEXT = "proof over Val ℝ (reals + ±inf + NaN + complex marker) of the formulas regenerated from the source"
+LEVEL_TEXT = ("Lean theorems over Val R (reals, +-inf, NaN, a complex marker) about the negloglike/get_pred bodies of the five likelihood classes, which a "
+              "translator re-reads from likelihood.py into a deep-embedded expression language on every run: on finite real predictions each class returns "
+              "exactly its documented formula (Gauss, Poisson, CC/Mock, MSE; vector and scalar predictions); no class ever returns NaN for any data and any "
+              "prediction or raising model; complex, NaN and (Poisson) non-positive predictions give +inf. The same regenerated terms are run over "
+              "float64/complex128 by the executable model and compared with the real classes on generated vectors (NaN, inf, complex, negative, scalar, raising).")
 TECHNIQUE = "Lean 4 theorems about the deep-embedded negloglike bodies regenerated from likelihood.py; float64/complex128 interpreter of the same terms tied to the real classes by generated-input correspondence; independent formula oracle on the real classes"
 RULE = ("cases = (class, data vectors y/sigma/inv_cov, what eq_numpy(x,*a) does) drawn from VERIF_SEED in four streams: "
         "formula (finite, in-domain), bad (NaN / non-zero imaginary part / Poisson non-positive injected), wild (±inf, "
